@@ -7,6 +7,8 @@
 package main
 
 import (
+	"bufio"
+	"encoding/json"
 	"errors"
 	"flag"
 	"fmt"
@@ -57,7 +59,7 @@ type Dump struct {
 }
 
 type RouterOp struct {
-	Op string `json:"op"` // index | default | file | mfile | dir
+	Op string `json:"op"` // index | default | file | mfile | get | post | dir | dirsvc
 	M  string `json:"m,omitempty"`
 	P  string `json:"p,omitempty"`
 	H  int    `json:"h"` // < 1000: leaf tag; 1000+j: router j of the case
@@ -394,6 +396,12 @@ func runRouter(c *Case) {
 					err = r.File(op.P, svc(op.H))
 				case "mfile":
 					err = r.MethodFile(op.M, op.P, svc(op.H))
+				case "get":
+					err = r.Get(op.P, svc(op.H))
+				case "post":
+					err = r.Post(op.P, svc(op.H))
+				case "dirsvc":
+					err = r.DirService(op.P, svc(op.H))
 				case "dir":
 					err = r.Dir(op.P, svc(op.H))
 				}
@@ -583,43 +591,68 @@ func runCase(c *Case) {
 	}
 }
 
+func unlift(s string) string {
+	b := make([]byte, 0, len(s))
+	for _, r := range s {
+		b = append(b, byte(r))
+	}
+	return string(b)
+}
+
+var lift1 = lift
+
+func lifts1(ss []string) []string {
+	out := make([]string, len(ss))
+	for i, s := range ss {
+		out[i] = lift1(s)
+	}
+	return out
+}
+
+// unliftCase undoes liftCase on a case read back from JSON.
+func unliftCase(c *Case) {
+	lift1 = unlift
+	liftCase(c)
+	lift1 = lift
+}
+
 // lift the input strings for output (after running)
 func liftCase(c *Case) {
 	for i := range c.Ops {
-		c.Ops[i].S = lift(c.Ops[i].S)
+		c.Ops[i].S = lift1(c.Ops[i].S)
 	}
-	c.Adds = lifts(c.Adds)
-	c.Paths = lifts(c.Paths)
+	c.Adds = lifts1(c.Adds)
+	c.Paths = lifts1(c.Paths)
 	for i := range c.SAdds {
-		c.SAdds[i].R = lifts(c.SAdds[i].R)
-		c.SAdds[i].V = lift(c.SAdds[i].V)
+		c.SAdds[i].R = lifts1(c.SAdds[i].R)
+		c.SAdds[i].V = lift1(c.SAdds[i].V)
 	}
 	for i := range c.SFinds {
-		c.SFinds[i] = lifts(c.SFinds[i])
+		c.SFinds[i] = lifts1(c.SFinds[i])
 	}
 	for i := range c.Routers {
 		for j := range c.Routers[i].Ops {
-			c.Routers[i].Ops[j].P = lift(c.Routers[i].Ops[j].P)
-			c.Routers[i].Ops[j].M = lift(c.Routers[i].Ops[j].M)
+			c.Routers[i].Ops[j].P = lift1(c.Routers[i].Ops[j].P)
+			c.Routers[i].Ops[j].M = lift1(c.Routers[i].Ops[j].M)
 		}
 	}
 	for i := range c.Reqs {
-		c.Reqs[i].Path = lift(c.Reqs[i].Path)
-		c.Reqs[i].Method = lift(c.Reqs[i].Method)
+		c.Reqs[i].Path = lift1(c.Reqs[i].Path)
+		c.Reqs[i].Method = lift1(c.Reqs[i].Method)
 	}
-	c.U0 = lift(c.U0)
-	c.Path = lift(c.Path)
+	c.U0 = lift1(c.U0)
+	c.Path = lift1(c.Path)
 	if c.Auth != nil {
-		c.Auth.SetupU = lift(c.Auth.SetupU)
-		c.Auth.Serve.U = lift(c.Auth.Serve.U)
+		c.Auth.SetupU = lift1(c.Auth.SetupU)
+		c.Auth.Serve.U = lift1(c.Auth.Serve.U)
 	}
 	for i := range c.Tiers {
-		c.Tiers[i].U = lift(c.Tiers[i].U)
+		c.Tiers[i].U = lift1(c.Tiers[i].U)
 	}
 	for i := range c.HSets {
-		c.HSets[i].H = lift(c.HSets[i].H)
+		c.HSets[i].H = lift1(c.HSets[i].H)
 	}
-	c.HReqs = lifts(c.HReqs)
+	c.HReqs = lifts1(c.HReqs)
 }
 
 // ------------------------------------------------------------- generation
@@ -870,6 +903,14 @@ func genCases(seed uint64, tier string) []Case {
 				case 2:
 					op.Op = "mfile"
 					op.M = []string{"GET", "POST", ""}[r.Intn(3)]
+					if op.M == "GET" && r.Bool() {
+						op.Op, op.M = "get", ""
+					} else if op.M == "POST" && r.Bool() {
+						op.Op, op.M = "post", ""
+					}
+				}
+				if op.Op == "dir" && r.Intn(4) == 0 {
+					op.Op = "dirsvc"
 				}
 				ops = append(ops, op)
 			}
@@ -998,11 +1039,32 @@ func main() {
 	from := flag.Int("from", 0, "first case (child)")
 	mem := flag.Uint64("mem", 3<<30, "address-space limit of the child")
 	sets := flag.Bool("sets", false, "print the shared path sets and exit")
+	runStdin := flag.Bool("run", false, "run the cases given as JSON lines on stdin (replay / shrinking)")
 	flag.Parse()
 
 	out := hx.NewOut(os.Stdout)
 	if *sets {
 		out.Emit(map[string]interface{}{"small": lifts(smallPaths), "segq": segQueries})
+		return
+	}
+	if *runStdin {
+		sc := bufio.NewScanner(os.Stdin)
+		sc.Buffer(make([]byte, 1<<20), 1<<28)
+		for sc.Scan() {
+			var c Case
+			if err := json.Unmarshal(sc.Bytes(), &c); err != nil {
+				fmt.Fprintln(os.Stderr, err)
+				os.Exit(2)
+			}
+			c.Obs = nil
+			unliftCase(&c)
+			resolve(&c)
+			if p := guard(func() { runCase(&c) }); p != "" {
+				c.Obs = &Obs{Crash: "panic: " + p}
+			}
+			liftCase(&c)
+			out.Emit(&c)
+		}
 		return
 	}
 	cs := genCases(*seed, *tier)
